@@ -164,7 +164,9 @@ def pls_part(rep, tier):
         rep.case(("pls", meta["x"], meta["p"], ks, meta["us"]))
         rep.count("pls grid=" + gk)
         rep.count("pls table=" + tk)
-        if err is not None or w is None or len(out) != ns:
+        if err is None and (w is None or len(out) != ns or not all(map(math.isfinite, out))):
+            err = meta["error"] = f"non-finite samples / no probability vector: samples = {out}"
+        if err is not None:
             cases.append(None)
             continue
         draws = []
@@ -248,7 +250,9 @@ def eval_part(rep, tier):
         rep.case(("eval", kind, meta["points"], gs))
         rep.count("eval func=" + kind)
         rep.count(f"eval grid_size={gs}")
-        if err is not None or rec.inexact or not np.all(np.isfinite(pg)):
+        if err is None and not (np.all(np.isfinite(pg)) and np.all(np.isfinite(xg))):
+            err = meta["error"] = "non-finite grid or density returned"
+        if err is not None or rec.inexact:
             cases.append(None if err is not None else "skip")
             if rec.inexact:
                 rep.count("eval dropped (values not exact doubles)")
@@ -300,6 +304,7 @@ def cond_part(rep, tier):
             cpt.append(c)
         log = []
         inexact = [0]
+        active = [None]       # variable being scanned, observed through Conditional.__call__
 
         def post(theta, _log=log):
             th = [C.frac(float(t)) for t in theta]
@@ -309,9 +314,15 @@ def cond_part(rep, tier):
             f = float(v)
             if Fraction(f) != v:
                 inexact[0] += 1
-            _log.append((th, Fraction(f)))
+            _log.append((th, Fraction(f), active[0]))
             return f
         gs = r.choice([9, 17, 33])
+        orig_call = getattr(getattr(m, "Conditional", None), "__call__", None)
+        if orig_call is not None:
+            def rec_call(self, x, _o=orig_call):
+                active[0] = getattr(self, "variable_index", None)
+                return _o(self, x)
+            m.Conditional.__call__ = rec_call
         try:
             with warnings.catch_warnings():
                 warnings.simplefilter("ignore")
@@ -321,6 +332,9 @@ def cond_part(rep, tier):
         except Exception as e:
             axes = prob = None
             err = repr(e)
+        finally:
+            if orig_call is not None:
+                m.Conditional.__call__ = orig_call
         meta = {"d": d, "a": [str(v) for v in a], "mu": [str(v) for v in mu],
                 "corr": {f"{i},{j}": str(v) for (i, j), v in cc.items()},
                 "bounds": [[str(lo), str(hi)] for lo, hi in bounds], "cpt": [str(c) for c in cpt],
@@ -328,6 +342,8 @@ def cond_part(rep, tier):
         metas.append(meta)
         rep.case(("cond", meta["a"], meta["mu"], meta["bounds"], meta["cpt"], gs))
         rep.count(f"cond d={d}")
+        if err is None and not (np.all(np.isfinite(axes)) and np.all(np.isfinite(prob))):
+            err = meta["error"] = "non-finite axes or densities returned"
         if err is not None:
             cases.append([None])
             continue
@@ -338,8 +354,10 @@ def cond_part(rep, tier):
         # split the evaluation log per variable: variable i's calls differ from cpt only in coord i
         per = [[] for _ in range(d)]
         cur = 0
-        for th, v in log:
+        for th, v, act in log:
             diff = [i for i in range(d) if th[i] != cpt[i]]
+            if act is not None and not diff and act > cur:
+                cur = act            # an evaluation exactly at the conditioning point opens variable `act`
             if len(diff) > 1:
                 rbad.append((len(metas) - 1, "a posterior evaluation differs from the conditioning point "
                              "in more than one coordinate"))
